@@ -29,6 +29,7 @@ presentation_role_selection.rst, the UNRESTRICTED_STORAGE_SERVICE doc text):
      complementary to the acceptor's (as_scu, as_scp) on every accepted context
 """
 import logging
+import os
 
 from vlib import refneg
 from vlib.common import rng_for, sha
@@ -71,7 +72,7 @@ REQUIRE = {"evals_direct": 3000, "evals_acse": 1000, "evals_unrestricted": 1000,
            "lists_dup_abstract": 200, "result_0x00": 2000, "result_0x01": 200, "result_0x03": 500,
            "result_0x04": 500, "replies_checked": 500, "stale_layout_contexts": 200,
            "unrestricted_storage_like": 500, "pref_differs_from_requestor_order": 200,
-           "classification_uids_probed": 90}
+           "classification_uids_probed": 90, "concurrent_rounds": 4, "concurrent_negotiations": 1500, "concurrent_yield_hits": 20000}
 for _p in ROLE_PROPOSALS:
     for _s in SUPPORTED_ROLES:
         REQUIRE["cell_%s_%s" % (_rs(_p), _rs(_s))] = 4
@@ -89,6 +90,8 @@ def gen_cases(tier, seed):
     for b in range((len(tab) + per_t - 1) // per_t):
         cases.append({"seed": seed, "kind": "table", "block": b, "lo": b * per_t, "hi": min(len(tab), (b + 1) * per_t)})
     cases.append({"seed": seed, "kind": "classify", "block": 0})
+    for b in range(6 if tier == "quick" else 120):
+        cases.append({"seed": seed, "kind": "concurrent", "block": b})
     n = 16000 if tier == "quick" else 600000
     per = 250 if tier == "quick" else 5000
     for b in range(n // per):
@@ -605,7 +608,89 @@ def evaluate(inp, path, counters):
     return V, None
 
 
+# ---- concurrent negotiations (every association is negotiated in its own thread of the acceptor AE): the outcome of one
+# negotiation must not depend on others running at the same time.  Yields are injected at every function entry and line
+# of pynetdicom/presentation.py (sys.monitoring), so any Python-level step of the real code is a possible hand-over point.
+INJ = {"installed": False, "hits": 0}
+_TOOL = 4
+
+
+def _injection(on):
+    import sys
+    import time as _t
+    mon = sys.monitoring
+    if not INJ["installed"]:
+        mon.use_tool_id(_TOOL, "c10-yield-injection")
+        tail = os.path.join("pynetdicom", "presentation.py")
+
+        def hit(code, *_):
+            if not code.co_filename.endswith(tail):
+                return mon.DISABLE
+            INJ["hits"] += 1
+            _t.sleep(0.0002 if INJ["hits"] % 7 == 0 else 0)
+        mon.register_callback(_TOOL, mon.events.PY_START, hit)
+        mon.register_callback(_TOOL, mon.events.LINE, hit)
+        INJ["installed"] = True
+    mon.set_events(_TOOL, (mon.events.PY_START | mon.events.LINE) if on else 0)
+
+
+def run_concurrent(case):
+    import threading
+    rng = rng_for(case["seed"], PID, "concurrent", case["block"])
+    tab = table_inputs()
+    nthreads = 6
+    per = 60
+    plans = [[tab[rng.randrange(len(tab))] for _ in range(per)] + [gen_input(rng) for _ in range(per // 3)] for _ in range(nthreads)]
+    for pl in plans:
+        rng.shuffle(pl)
+    # single-threaded baseline first: a violation that shows up there is not a concurrency effect (and is reported by the other kinds)
+    base = set()
+    for pl in plans:
+        for inp in pl:
+            V, _ = evaluate(inp, "direct", _new_counters())
+            base.update(v["key"] for v in V)
+    out = [[] for _ in range(nthreads)]
+    cnts = [_new_counters() for _ in range(nthreads)]
+    barrier = threading.Barrier(nthreads)
+
+    def worker(k):
+        barrier.wait(5.0)
+        for inp in plans[k]:
+            V, _ = evaluate(inp, "direct", cnts[k])
+            out[k].extend(V)
+    INJ["hits"] = 0
+    _injection(True)
+    try:
+        ths = [threading.Thread(target=worker, args=(k,), daemon=True) for k in range(nthreads)]
+        for t in ths:
+            t.start()
+        for t in ths:
+            t.join(120.0)
+    finally:
+        _injection(False)
+    counters = _new_counters()
+    counters["concurrent_rounds"] = 1
+    counters["concurrent_negotiations"] = sum(c["evals_direct"] for c in cnts)
+    counters["concurrent_yield_hits"] = INJ["hits"]
+    viols, seen = [], set()
+    for V in out:
+        for v in V:
+            if v["key"] in base:
+                continue
+            k = "concurrent-only|" + v["key"]
+            if k not in seen:
+                seen.add(k)
+                viols.append({"key": k, "detail": "only when %d threads negotiate at the same time: %s" % (nthreads, v["detail"])})
+    inconclusive = "a negotiation thread did not finish" if any(t.is_alive() for t in ths) else None
+    return {"key": sha(["concurrent", case["block"], counters["concurrent_negotiations"]]), "nontrivial": counters["concurrent_negotiations"] > 0,
+            "sample": {"kind": "concurrent", "threads": nthreads, "negotiations": counters["concurrent_negotiations"], "yield_hits": INJ["hits"],
+                       "first_input_of_thread_0": _short(plans[0][0])},
+            "violations": viols, "counters": counters, "inconclusive": inconclusive}
+
+
 def run_case(case):
+    if case.get("kind") == "concurrent":
+        return run_concurrent(case)
     counters = _new_counters()
     viols, keys, seen_vkeys = [], set(), set()
     sample = None
